@@ -1,6 +1,7 @@
 #!/bin/bash
 # usage: run_seed.sh <seed-dir-name> <prop>...   applies the patch to /repo, runs the checks, undoes it
 S=$1; shift
+if [ -n "$(git -C /repo status --porcelain)" ]; then echo "/repo has uncommitted changes: commit them first"; exit 2; fi
 git -C /repo apply /verif/seeded/$S/patch.diff || exit 2
 for p in "$@"; do
   out=$(cd /verif && ./bin/govc check --no-evidence $p 2>&1); rc=$?
